@@ -68,7 +68,8 @@ func hC03(n, prefix, L, vlen int) {
 	vCover("C03.done")
 }
 
-func H_C03_q()    { hC03(2, 2, 2, 2) }
+// the prefix overwrites k0: the first segment holds a dead record, so Compact has work
+func H_C03_q()    { hC03(2, 3, 2, 2) }
 func H_C03_tear() { hC03(2, 1, 2, 300) }
 func H_C03_tearhdr() { hC03(2, 1, 2, 490) }
-func H_C03_t()    { hC03(2, 2, 3, 2) }
+func H_C03_t()    { hC03(2, 3, 3, 2) }
